@@ -23,6 +23,7 @@ CONSTANTS
   BugZeroCostHeld = TRUE
   SplitOnlyAtEnqueue = FALSE
   DropOnClose = FALSE
+  ForwardInitWin = FALSE
   WithSettings = TRUE
 INVARIANTS NoEligibleQueued
 CHECK_DEADLOCK FALSE
